@@ -9,13 +9,15 @@
 static void
 bin2(uint8_t* im_, int w, int h)
 {
-    __m256i* const im = (__m256i*)im_;
+    // The image buffers come from realloc(), which aligns to 16 bytes only:
+    // address the blocks through the unaligned vector type.
+    __m256i_u* const im = (__m256i_u*)im_;
     const int dy = w / LANES;
 
     for (int y = 0; y < h / 2; ++y) {
-        __m256i* const row = im + 2 * y * dy;
+        __m256i_u* const row = im + 2 * y * dy;
         for (int x = 0; x < CEIL_BLOCKS(w); ++x) {
-            __m256i* const col = row + x;
+            __m256i_u* const col = row + x;
             im[x + y * dy] = _mm256_avg_epu8(col[0], col[dy]);
         }
     }
